@@ -25,12 +25,13 @@ def string_escape_text(crate, b, writer_fn_path):
     wr = crate.fn(writer_fn_path)
     if fet is None or wr is None:
         return "error", "anchor missing: from_escape_table / %s" % writer_fn_path
+    fwd = common.sink_forwarders(crate)
     S = sim.Sim([crate])
     rets, others = _ret_one(S, fet, {1: e, 2: b})
     if len(rets) != 1 or not isinstance(rets[0].ret, Adt):
         return "error", "from_escape_table(%d, %d) does not yield one variant (%s)" % (e, b, [p.end for p in others])
     variant = rets[0].ret
-    S2 = sim.Sim([crate])
+    S2 = sim.Sim([crate], inline=lambda a, b: b.path in fwd)
     rets2, _ = _ret_one(S2, wr, {2: variant})
     texts = set()
     for p in rets2:
